@@ -275,7 +275,7 @@ static void gen_conf_file(plan_t *p, rng_t *r, const char *name, int allow_exec,
                    a variable deleted from the middle of the list */
                 static const char *odd[] = { "x %get() y", "x %get(a b c) y", "%put()", "%put(k1)", "%put(k1 v w)", "x %dirscan() y", "x %dirscan(a b) y", "x %dirscan(/cfg/nodir) y",
                     "x %version ) y", "x %appname ) tail) y", "x %get ) k1) y", "%put ) k2 v2)", "x %random ) y", "x %random() y", "x %get($NOSUCH) y", "x %get(nokey) y",
-                    "%include", "%include ", "% include", "%preproc", "%", "%%", "x %", "%put(k2 mid)", "%put('k2\" b' one)", "%put('k2\" b' one)", "%put(\"k2\\\" b)", "%put(k0 first)", "%put(k1 '')", "x %get(k1) y" };
+                    "%include", "%include ", "% include", "%preproc", "%", "%%", "x %", "%put(k2 mid)", "%put('k2\" b' one)", "%put('k2\" b' one)", "%put(\"k2\\\\\" b)", "%put(k0 first)", "%put(k0 first)\n%put('k2\" b' one)\n%put(\"k2\\\\\" b)\nx %get(k0) y %get('k2\" b' gone)", "%put(k1 '')\nx %get(k1) y\nz%get(k1)", "%put(k3 \"\")\n%get(k3)", "%put(k1 '')", "x %get(k1) y" };
                 add("%s\n", odd[rng_below(r, sizeof(odd) / sizeof(odd[0]))]);
             }
             else if (c < 80) add("%%xb%d(arg %d)\n", rng_range(r, 7, 12), q);
